@@ -105,6 +105,26 @@ func annotate(name string, b []byte) string {
 		}
 		sort.Strings(ts)
 		return "topics," + joinOr(ts, ";")
+	case strings.HasSuffix(name, "/session_state.json.tmp"):
+		var ss struct {
+			Txns []struct {
+				PID    int64                      `json:"pid"`
+				Firsts map[string]map[int32]int64 `json:"txPartFirstOffsets"`
+			} `json:"inProgressTxns"`
+		}
+		if json.Unmarshal(b, &ss) != nil {
+			return "json"
+		}
+		var es []string
+		for _, t := range ss.Txns {
+			for topic, parts := range t.Firsts {
+				for part, first := range parts {
+					es = append(es, fmt.Sprintf("%d@%s-%d@%d", t.PID, topic, part, first))
+				}
+			}
+		}
+		sort.Strings(es)
+		return "sess," + joinOr(es, ";")
 	case strings.HasSuffix(name, ".json.tmp"):
 		return "json"
 	}
